@@ -61,8 +61,15 @@ Definition b64_floor (x : float) : Z :=
 Definition b64_trunc (x : float) : Z :=
   if (x <? 0)%float then - b64_floor (PrimFloat.abs x) else b64_floor x.
 
+(* |x| < 2^51: truncation toward zero as a float *)
+Definition trunc_small (x : float) : float :=
+  let a := PrimFloat.abs x in
+  let r := ((a + c2p52) - c2p52)%float in
+  let r := if (a <? r)%float then (r - 1)%float else r in
+  if (x <? 0)%float then (- r)%float else r.
+
 (* C fmod: exact *)
-Definition b64_fmod (x y : float) : float :=
+Definition b64_fmod_slow (x y : float) : float :=
   match b64_parts x, b64_parts y with
   | Some (mx, ex), Some (my, ey) =>
       if my =? 0 then nan else
@@ -76,6 +83,13 @@ Definition b64_fmod (x y : float) : float :=
   | Some _, None => if is_nan y then nan else x     (* fmod(x, inf) = x *)
   | _, _ => nan
   end.
+
+(* fast path for the very common x % 1 with |x| < 2^51: x - trunc x is exact *)
+Definition b64_fmod (x y : float) : float :=
+  if (y =? 1)%float && (PrimFloat.abs x <? c2p51)%float then
+    let r := (x - trunc_small x)%float in
+    if (r =? 0)%float then (if get_sign x then (-0)%float else 0%float) else r
+  else b64_fmod_slow x y.
 
 (* round half to even of the rational n/d, d > 0 *)
 Definition q_round_half_even (n d : Z) : Z :=
